@@ -91,3 +91,34 @@ def attr_values(cls_nodes, attr):
                         kinds.add(k)
                         sites.append((x, k))
     return kinds, sites
+
+
+def yielding_uses(fnode, name):
+    """Blocks `if <name> is not None:` of the function and, in each, the uses of <name> that let a value already there
+    win over it: the default of `d.setdefault(k, <name>)` / `d.get(k, <name>)`, a later operand of `x or <name>`.
+    A value given explicitly replaces what is stored; only the None default leaves it.  Returns (blocks, [(node, why)])."""
+    blocks, bad = [], []
+    for x in walk_no_nested(fnode):
+        if not isinstance(x, ast.If):
+            continue
+        t_, neg = x.test, False
+        while isinstance(t_, ast.UnaryOp) and isinstance(t_.op, ast.Not):
+            t_, neg = t_.operand, not neg
+        if not (isinstance(t_, ast.Compare) and len(t_.ops) == 1 and isinstance(t_.left, ast.Name) and t_.left.id == name
+                and isinstance(t_.comparators[0], ast.Constant) and t_.comparators[0].value is None):
+            continue
+        given = isinstance(t_.ops[0], ast.IsNot) != neg
+        body = x.body if given else x.orelse
+        if not any(isinstance(n_, ast.Name) and n_.id == name for st in body for n_ in ast.walk(st)):
+            continue
+        blocks.append(x)
+        for st in body:
+            for c in ast.walk(st):
+                if isinstance(c, ast.Call) and isinstance(c.func, ast.Attribute) and c.func.attr in ("setdefault", "get") \
+                        and len(c.args) == 2 and isinstance(c.args[1], ast.Name) and c.args[1].id == name:
+                    bad.append((c, "`.%s(key, %s)` keeps the stored value when there is one" % (c.func.attr, name)))
+                if isinstance(c, ast.BoolOp) and isinstance(c.op, ast.Or):
+                    for v in c.values[1:]:
+                        if isinstance(v, ast.Name) and v.id == name:
+                            bad.append((c, "`... or %s` takes %s only when what stands before it is falsy" % (name, name)))
+    return blocks, bad
